@@ -23,6 +23,11 @@ import (
 //   gen_<f>_bytes : list Z       the elements of every []byte{...} literal, in source order
 //   gen_<f>_subs : list Z        every literal operand of a subtraction (32-n, len(data)-96, ...), in source order
 //   gen_zeroByteSlice : list N   the literal returned by zeroByteSlice()
+// The per-function lists account the body of an unmodelled same-package helper at its call site (sm2sigHelper
+// below), so they do not change when e.g. the padding block moves into leftPad32(buf).
+//   gen_<f>_pads : list (Z*Z)    the padding sites of f (inline block or a helper that is exactly the block), as the
+//                                constants (W1, W2) of  if n := len(X); n < W1 { X = append(zeroByteSlice()[:W2-n], X...) }
+//   gen_<f>_stray_zero_uses : Z  uses of zeroByteSlice() outside such a site
 func init() {
 	register("sm2sig", func(c *Ctx) error {
 		p, err := LoadPkg(c, "sm2", "sm2.go")
@@ -143,8 +148,18 @@ func init() {
 			if !ok {
 				return nil, nil, nil, nil, nil, fmt.Errorf("%s not found", fn)
 			}
-			ast.Inspect(f, func(n ast.Node) bool {
+			active := map[string]bool{fn: true}
+			var visit func(n ast.Node) bool
+			visit = func(n ast.Node) bool {
 				switch t := n.(type) {
+				case *ast.CallExpr:
+					// a call of an unmodelled same-package helper: its body runs here, so its literals are
+					// accounted at the call site (before the arguments), as if the body stood inline
+					if h := sm2sigHelper(p, t); h != nil && !active[h.Name.Name] && len(active) <= sm2sigHelperDepth {
+						active[h.Name.Name] = true
+						ast.Inspect(h.Body, visit)
+						delete(active, h.Name.Name)
+					}
 				case *ast.SliceExpr:
 					slices = append(slices, bound(t.Low), bound(t.High))
 				case *ast.IndexExpr:
@@ -172,6 +187,10 @@ func init() {
 							if v, err := p.Eval(t.Y); err == nil {
 								widths = append(widths, v)
 							}
+						} else if _, isLit := t.X.(*ast.BasicLit); isLit { // mirrored form  K > n / K != len(x)
+							if v, err := p.Eval(t.X); err == nil {
+								widths = append(widths, v)
+							}
 						}
 					}
 				case *ast.CompositeLit:
@@ -184,7 +203,8 @@ func init() {
 					}
 				}
 				return true
-			})
+			}
+			ast.Inspect(f, visit)
 			return
 		}
 		var zf *ast.FuncDecl
@@ -225,8 +245,191 @@ func init() {
 			v.Raw(fmt.Sprintf("Definition gen_%s_bytes : list Z := %s.\n", fn, zlist(by)))
 			v.Raw(fmt.Sprintf("Definition gen_%s_subs : list Z := %s.\n", fn, zlist(su)))
 		}
+		// padding sites (semantic reading, see coq/SM2/SM2ParamsTie.v pad_sites_tied)
+		for _, fn := range []string{"Encrypt", "Decrypt", "CipherUnmarshal", "ZA", "keCoordBytes"} {
+			pads, stray, err := sm2sigPads(p, fn)
+			if err != nil {
+				return err
+			}
+			out := "["
+			for i, w := range pads {
+				if i > 0 {
+					out += "; "
+				}
+				out += fmt.Sprintf("(%s, %s)", w[0].String(), w[1].String())
+			}
+			v.Raw(fmt.Sprintf("Definition gen_%s_pads : list (Z * Z) := %s]%%Z.\n", fn, out))
+			v.Raw(fmt.Sprintf("Definition gen_%s_stray_zero_uses : Z := %d.\n", fn, stray))
+		}
 		v.Raw("Open Scope N_scope.\n")
 		v.NList("gen_zeroByteSlice", zeros)
 		return v.Write(c, "SM2SigParams.v")
 	})
+}
+
+// ---- helper calls and padding sites (layout tie that does not depend on where the padding block stands) ----
+
+// functions of sm2/sm2.go that coq/SM2/SM2Model.v follows under their own name: a call of one of them is a
+// call in the model too, so its body is not accounted to the caller.  Every OTHER plain function of the
+// package that one of the layout functions calls is a helper without a counterpart in the model: the layout
+// tables treat its body as if it stood at the call site (nesting up to sm2sigHelperDepth).
+var sm2sigModelled = map[string]bool{
+	"Sm2Sign": true, "Sm2Verify": true, "Verify": true, "Encrypt": true, "Decrypt": true,
+	"keyExchange": true, "KeyExchangeA": true, "KeyExchangeB": true, "keCoordBytes": true, "msgHash": true,
+	"ZA": true, "zeroByteSlice": true, "EncryptAsn1": true, "DecryptAsn1": true, "CipherMarshal": true,
+	"CipherUnmarshal": true, "keXHat": true, "BytesCombine": true, "intToBytes": true, "kdf": true,
+	"randFieldElement": true, "GenerateKey": true, "getLastBit": true,
+}
+
+const sm2sigHelperDepth = 3
+
+func sm2sigHelper(p *Pkg, call *ast.CallExpr) *ast.FuncDecl {
+	id, ok := call.Fun.(*ast.Ident)
+	if !ok || sm2sigModelled[id.Name] {
+		return nil
+	}
+	h, ok := p.Funcs[id.Name]
+	if !ok || h.Recv != nil || h.Body == nil {
+		return nil
+	}
+	return h
+}
+
+func sm2sigIdent(e ast.Expr) string {
+	if id, ok := e.(*ast.Ident); ok {
+		return id.Name
+	}
+	return ""
+}
+
+func sm2sigIsLen(e ast.Expr, v string) bool {
+	c, ok := e.(*ast.CallExpr)
+	return ok && sm2sigIdent(c.Fun) == "len" && len(c.Args) == 1 && sm2sigIdent(c.Args[0]) == v && v != ""
+}
+
+// sm2sigPadBlock recognises the statement
+//     if n := len(X); n < W1 { X = append(zeroByteSlice()[:W2-n], X...) }
+// (also  if len(X) < W1 { X = append(zeroByteSlice()[:W2-len(X)], X...) }  and the mirrored  W1 > n)
+// and returns the variable X and the two constants.
+func sm2sigPadBlock(p *Pkg, s ast.Stmt) (x string, w1, w2 *big.Int, ok bool) {
+	is, isIf := s.(*ast.IfStmt)
+	if !isIf || is.Else != nil || len(is.Body.List) != 1 {
+		return
+	}
+	asg, isAsg := is.Body.List[0].(*ast.AssignStmt)
+	if !isAsg || asg.Tok != token.ASSIGN || len(asg.Lhs) != 1 || len(asg.Rhs) != 1 {
+		return
+	}
+	x = sm2sigIdent(asg.Lhs[0])
+	if x == "" {
+		return
+	}
+	// the length expression: n (bound by the init statement to len(X)) or len(X) itself
+	nName := ""
+	if is.Init != nil {
+		ini, isDef := is.Init.(*ast.AssignStmt)
+		if !isDef || ini.Tok != token.DEFINE || len(ini.Lhs) != 1 || len(ini.Rhs) != 1 || !sm2sigIsLen(ini.Rhs[0], x) {
+			return
+		}
+		nName = sm2sigIdent(ini.Lhs[0])
+		if nName == "" || nName == x {
+			return
+		}
+	}
+	isN := func(e ast.Expr) bool {
+		if nName != "" {
+			return sm2sigIdent(e) == nName
+		}
+		return sm2sigIsLen(e, x)
+	}
+	cond, isBin := is.Cond.(*ast.BinaryExpr)
+	if !isBin {
+		return
+	}
+	var wexpr ast.Expr
+	switch {
+	case cond.Op == token.LSS && isN(cond.X):
+		wexpr = cond.Y
+	case cond.Op == token.GTR && isN(cond.Y):
+		wexpr = cond.X
+	default:
+		return
+	}
+	v1, err := p.Eval(wexpr)
+	if err != nil {
+		return
+	}
+	app, isCall := asg.Rhs[0].(*ast.CallExpr)
+	if !isCall || sm2sigIdent(app.Fun) != "append" || len(app.Args) != 2 || !app.Ellipsis.IsValid() || sm2sigIdent(app.Args[1]) != x {
+		return
+	}
+	sl, isSl := app.Args[0].(*ast.SliceExpr)
+	if !isSl || sl.Low != nil || sl.Slice3 || sl.High == nil {
+		return
+	}
+	zc, isZ := sl.X.(*ast.CallExpr)
+	if !isZ || sm2sigIdent(zc.Fun) != "zeroByteSlice" || len(zc.Args) != 0 {
+		return
+	}
+	sub, isSub := sl.High.(*ast.BinaryExpr)
+	if !isSub || sub.Op != token.SUB || !isN(sub.Y) {
+		return
+	}
+	v2, err := p.Eval(sub.X)
+	if err != nil {
+		return
+	}
+	return x, v1, v2, true
+}
+
+// sm2sigPadHelper: is h  func h(b []byte) []byte { <pad block on b>; return b } ?
+func sm2sigPadHelper(p *Pkg, h *ast.FuncDecl) (w1, w2 *big.Int, ok bool) {
+	if h.Type.Params == nil || len(h.Type.Params.List) != 1 || len(h.Type.Params.List[0].Names) != 1 ||
+		h.Type.Results == nil || len(h.Type.Results.List) != 1 || len(h.Type.Results.List[0].Names) > 0 || len(h.Body.List) != 2 {
+		return
+	}
+	b := h.Type.Params.List[0].Names[0].Name
+	x, v1, v2, isPad := sm2sigPadBlock(p, h.Body.List[0])
+	ret, isRet := h.Body.List[1].(*ast.ReturnStmt)
+	if !isPad || x != b || !isRet || len(ret.Results) != 1 || sm2sigIdent(ret.Results[0]) != b {
+		return
+	}
+	return v1, v2, true
+}
+
+// sm2sigPads: the padding sites of a function in source order, as pairs (W1, W2): the inline block on a
+// variable X, or  X = h(X) / X := h(X') for a helper h that is exactly the block (sm2sigPadHelper).
+// `unpadded` counts the uses of zeroByteSlice() that are in neither form (so the semantic reading would miss them).
+func sm2sigPads(p *Pkg, fn string) (pads [][2]*big.Int, unpadded int, err error) {
+	f, ok := p.Funcs[fn]
+	if !ok {
+		return nil, 0, fmt.Errorf("%s not found", fn)
+	}
+	ast.Inspect(f.Body, func(n ast.Node) bool {
+		switch t := n.(type) {
+		case *ast.IfStmt:
+			if _, w1, w2, ok := sm2sigPadBlock(p, t); ok {
+				pads = append(pads, [2]*big.Int{w1, w2})
+				return false
+			}
+		case *ast.CallExpr:
+			if sm2sigIdent(t.Fun) == "zeroByteSlice" {
+				unpadded++
+			}
+			if h := sm2sigHelper(p, t); h != nil {
+				if w1, w2, ok := sm2sigPadHelper(p, h); ok && len(t.Args) == 1 {
+					pads = append(pads, [2]*big.Int{w1, w2})
+				} else {
+					ast.Inspect(h.Body, func(m ast.Node) bool {
+						if c, ok := m.(*ast.CallExpr); ok && sm2sigIdent(c.Fun) == "zeroByteSlice" {
+							unpadded++
+						}
+						return true
+					})
+				}
+			}
+		}
+		return true
+	})
+	return
 }
